@@ -7,7 +7,7 @@
 
 using namespace vf;
 
-uint64_t vf_total(const std::string&) { return 0; }
+uint64_t vf_total(const std::string& mode) { return mode == "boundary32" ? 12 : 0; }
 
 static bool c08_equal(const MVal& m, const MVal& t, std::string& why, const std::string& path) {
   auto fail = [&](const std::string& w) { if (why.empty()) why = path + ": " + w; return false; };
@@ -75,7 +75,14 @@ static MVal boundary_value(Rng& r, bool thorough) {
 void vf_run_case(Ctx& c, uint64_t index) {
   Rng r(c.seed, 8, index);
   MVal model;
-  if (r.chance(1, 3)) {
+  if (c.mode == "boundary32") {
+    // the map16/map32 and array16/array32 header boundary, deterministically (building such an object is quadratic: a handful of cases)
+    static const size_t ns[] = {65536, 65535, 65537};
+    size_t n = ns[(index / 2) % 3];
+    if (index % 2 == 0) { model = MVal::obj(); for (size_t i = 0; i < n; i++) model.o.emplace_back("k" + std::to_string(i), MVal::boolean(i & 1)); }
+    else { model = MVal::arr(); for (size_t i = 0; i < n; i++) model.a.push_back(MVal::uint(i & 0x7f)); }
+    if (index >= 6) { MVal w = MVal::obj(); w.o.emplace_back("outer", model); model = w; }
+  } else if (r.chance(1, 3)) {
     model = boundary_value(r, c.tier != 0);
     if (r.chance(1, 3)) { MVal w = MVal::arr(); w.a.push_back(model); w.a.push_back(boundary_value(r, c.tier != 0)); model = w; }
     else if (r.chance(1, 4)) { MVal w = MVal::obj(); w.o.emplace_back(rnd_bytes(r, r.pick({(size_t)0, (size_t)31, (size_t)32, (size_t)255, (size_t)256}), true), model); model = w; }
